@@ -843,10 +843,31 @@ def producers_oracle(ctx):
     cfg = write_cfg("Enum_Producers_gen", open(os.path.join(SPEC, "Enum_Producers.cfg")).read().replace("MaxOps = 3", "MaxOps = %d" % (3 if q else 4)))
     r = tlc("MC_Producers", cfg=cfg, workers=8, cont=False, capture=("CASE", raw), name="enum-producers")
     ctx.add_mc(r, "enum-producers-behaviours")
+    # a seed-keyed sample when the bound yields more behaviours than one run can judge (the thorough tier's 7 * 10^5)
+    import zlib
+    lines = sorted(set(open(raw)))
+    total = len(lines)
+    budget = 150000
+    if total > budget:
+        lines = [l for l in lines if (zlib.crc32(l.encode()) + ctx.seed) % max(1, total // budget) == 0]
+        with open(raw, "w") as f:
+            f.writelines(lines)
     trace = os.path.join(ctx.work, "producers.ndjson")
+    for f in os.listdir(ctx.work):
+        if f.startswith("producers.ndjson"):
+            os.remove(os.path.join(ctx.work, f))
     wv(["trace-producers", "histories=" + raw, "out=" + trace])
-    cases = judge_shards(ctx, "Trace_Producers", [trace], label="producers", slim=lambda c: {"id": c["id"], "ops": [e["e"] for e in c["events"]]})
-    ctx.notes["producers_behaviours_replayed"] = len(cases)
+    # judged in pieces, concurrently
+    shards = 1 if q else 8
+    parts = [trace] if shards == 1 else ["%s.%d" % (trace, k) for k in range(shards)]
+    if shards > 1:
+        outs = [open(p, "w") for p in parts]
+        for k, l in enumerate(open(trace)):
+            outs[k % shards].write(l)
+        for o in outs:
+            o.close()
+    cases = judge_shards(ctx, "Trace_Producers", parts, label="producers", slim=lambda c: {"id": c["id"], "ops": [e["e"] for e in c["events"]]})
+    ctx.notes["producers_behaviours"] = {"enumerated": total, "replayed": len(cases)}
     return cases
 
 
